@@ -191,6 +191,14 @@ type abortSentinel struct{}
 // sentinel (deadlock / budget), as opposed to a panic of the code under test.
 func IsAbort(v any) bool { _, ok := v.(abortSentinel); return ok }
 
+// endTask ends the calling task's goroutine when its run is over or aborted.
+// It is runtime.Goexit, not a panic: library code that recovers from panics
+// (a helper that turns a panic into an error, an actor that survives its
+// evaluator) would swallow a sentinel panic and go on running library code
+// outside the simulator's control, concurrently with the next run. Deferred
+// functions still run; recover() sees nothing.
+func endTask() { runtime.Goexit() }
+
 var (
 	hotList []uint32 // filled by the generated hot_gen.go
 	hotSite []bool
@@ -234,7 +242,9 @@ func Y(site uint32) {
 	if !on {
 		return
 	}
-	if aborted || gcPause {
+	if aborted || allDone || gcPause {
+		// (allDone: a task that is being ended runs its deferred library code
+		// without the turn; those statements are not steps of the run)
 		return
 	}
 	stepN++
@@ -270,7 +280,7 @@ func Y(site uint32) {
 				waitTurn(cur) // parked; goes on from here in a later run
 				return
 			}
-			panic(abortSentinel{})
+			endTask()
 		}
 		return
 	}
@@ -384,7 +394,7 @@ func waitTurn(me int32) {
 			continue
 		}
 		if aborted || allDone || runGen != t.gen {
-			panic(abortSentinel{})
+			endTask()
 		}
 		if cur == me {
 			return
@@ -440,7 +450,7 @@ func abort(class, detail string) {
 		stats.Aborted = class
 		stats.AbortDetail = detail
 	}
-	panic(abortSentinel{})
+	endTask()
 }
 
 //go:norace
@@ -697,7 +707,7 @@ func Block(addr unsafe.Pointer) {
 		return
 	}
 	if aborted {
-		panic(abortSentinel{})
+		endTask()
 	}
 	t := &tasks[cur]
 	t.state = stBlocked
@@ -730,7 +740,7 @@ func Block(addr unsafe.Pointer) {
 			waitTurn(cur) // parked while blocked; resumes when a later run wakes and schedules it
 			return
 		}
-		panic(abortSentinel{})
+		endTask()
 	}
 	record(t, t.lastSite, to, 2)
 	me := cur
